@@ -12,6 +12,8 @@ R12.4  positional emulation: seek to offset, transfer, seek back to the saved po
 R12.5  scatter/gather order: entry k is taken from guest address ptr + 8k, ascending, and the native call gets
        the array and the same count
 R12.6  error discipline: a failed native call never yields SUCCESS; success paths store the result first
+R12.7  fd_close in a sequence: the closed table slot no longer holds the native descriptor, and read/write/seek/tell/filestat/close on
+       the closed number are EBADF without any native call (rules shared with C13)
 """
 import re
 from .. import astdb, pe, wasi as W, wasi_oracle as O, runtime, ctyperules as ct
@@ -560,6 +562,13 @@ def run(chk):
     check_positional(chk, tu, macros)
     check_raw_guest_writes(chk, tu)
     check_close(chk, tu)
+    # fd_close inside a sequence: the closed slot must not keep the native descriptor (the host hands the same number to the next
+    # open), and the file I/O calls on a closed descriptor are EBADF without a native call - rules shared with C13 (R13.2 / R13.3)
+    from . import c13
+    closed = c13.closed_state(chk, tu, rule='R12.7')
+    c13.check_inert(chk, tu, closed, only=('fd_write', 'fd_pwrite', 'fd_read', 'fd_pread', 'fd_seek', 'fd_tell', 'fd_filestat_get', 'fd_close'),
+                    rule='R12.7', floor=16)
+    chk.floor('R12.7', 16)
     chk.floor('R12.1', 18)
     chk.floor('R12.2', 20)
     chk.floor('R12.3', 40)
